@@ -18,7 +18,8 @@ RULE = ("case = one execution of a plan with clear_checkpoint after 0/1/2 data p
         "clear_checkpoint (command at landing), kind, outcome class); non-trivial = request accepted in the non-resumable "
         "section")
 ASSUMPTIONS = ["'takes effect after clear_checkpoint' is read from the log: the engine's state change caused by the request "
-               "comes after the clear_checkpoint message", "no checkpoint follows clear_checkpoint in these plans"]
+               "comes after the clear_checkpoint message", "no checkpoint follows clear_checkpoint in these plans (toggling 'rewindable' or closing the run and opening "
+               "another one inside the section is not a checkpoint)"]
 REQUIRED_COUNTERS = {"executions": 300, "nonresumable_interruptions": 150, "pause_kind": 50, "suspend_kind": 50,
                      "cleanup_observed": 150}
 MANIFEST = {
@@ -30,7 +31,7 @@ MANIFEST = {
     "note": "Corpus plans clearcp/clearcp0/1/2 x all coordinates x 3 request kinds.",
     "design_ref": "3 (C10)",
 }
-PLANS_Q = ["clearcp", "clearcp0", "clearcp1", "clearcp2"]
+PLANS_Q = ["clearcp", "clearcp0", "clearcp1", "clearcp2", "clearcp_rw", "clearcp_2runs"]
 PLANS_T = PLANS_Q
 SHARD_TIMEOUT = {"quick": 900, "thorough": 3600}
 worker_init = sweepcheck.worker_init
